@@ -84,7 +84,37 @@ func genQuery(r *Rng, m *qMeta) []string {
 	G := m.Groups
 	small := !m.Big
 	for {
-		switch r.Intn(27) {
+		switch r.Intn(39) {
+		case 27:
+			return []string{"SELECT id, w FROM a JOIN b USING (id, g);", "SELECT id, g, w FROM a NATURAL JOIN b;"}
+		case 28:
+			if !small && m.NB > 12 {
+				continue
+			}
+			return []string{"SELECT a.id, t.w FROM a, LATERAL (SELECT MAX(w) AS w FROM b WHERE b.g = a.g) t;"}
+		case 29:
+			return []string{"SELECT id, SUM(v) OVER (PARTITION BY g ORDER BY id ROWS BETWEEN 1 PRECEDING AND CURRENT ROW) AS s1, AVG(v) OVER (PARTITION BY g ORDER BY id ROWS BETWEEN UNBOUNDED PRECEDING AND 1 FOLLOWING) AS a1 FROM a;"}
+		case 30:
+			return []string{"SELECT id, NTH_VALUE(v, 2) OVER (PARTITION BY g ORDER BY id) AS n2, NTILE(3) OVER (ORDER BY id) AS nt, DENSE_RANK() OVER (ORDER BY g) AS dr, CUME_DIST() OVER (ORDER BY v, id) AS cd, LEAD(s, 1, 'none') OVER (ORDER BY id) AS ld, PERCENT_RANK() OVER (PARTITION BY g ORDER BY id) AS pr FROM a;"}
+		case 31:
+			return []string{fmt.Sprintf("SELECT id FROM a ORDER BY v %% 3 DESC, s, id DESC LIMIT %d PERCENT;", 10+r.Intn(80)), "SELECT id, v FROM a ORDER BY v LIMIT 2 WITH TIES;"}
+		case 32:
+			return []string{"SELECT g, JSON_AGG(s), MEDIAN(DISTINCT v), VAR(v), STDEVP(v) FROM a GROUP BY g;"}
+		case 33:
+			return []string{"SELECT id FROM a WHERE v > ANY (SELECT w FROM b) OR v <= ALL (SELECT w FROM b WHERE w > 100);", "SELECT a.id FROM a WHERE (a.id, a.g) IN (SELECT id, g FROM b);"}
+		case 34:
+			if !small {
+				continue
+			}
+			return []string{"SELECT id, (SELECT COUNT(*) FROM a a2 WHERE a2.g = a.g AND a2.id <= a.id) AS rnk FROM a;"}
+		case 35:
+			return []string{"SELECT id FROM a WHERE v IS NOT NULL INTERSECT SELECT id FROM b UNION ALL SELECT g FROM b EXCEPT SELECT 0;"}
+		case 36:
+			return []string{"DELETE FROM a WHERE id IN (SELECT id FROM b);", "UPDATE a SET s = s || '!' WHERE g = (SELECT MIN(g) FROM b);", "SELECT * FROM a;"}
+		case 37:
+			return []string{"CREATE TABLE made (id, total) AS SELECT g, SUM(v) FROM a GROUP BY g;", "SELECT * FROM made;", "INSERT INTO made SELECT id, w FROM b;"}
+		case 38:
+			return []string{"DECLARE tq VIEW AS SELECT id, g, v FROM a WHERE v IS NOT NULL;", "UPDATE tq SET v = v * 2 WHERE g > 0;", "SELECT g, SUM(v) FROM tq GROUP BY g;", "DISPOSE TABLE tq;"}
 		case 0:
 			return []string{fmt.Sprintf("SELECT id, g, v, s FROM a WHERE %s;", genCond(r, "", G))}
 		case 1:
